@@ -177,7 +177,9 @@ def objLineProblem (l : String) : Option String :=
 def probeLineProblem (l : String) : Option String :=
   let f := l.splitOn "|"
   if f.headD "" != "X" then none else
-  if f.any (fun t => t.startsWith "complete=err" || t.startsWith "get=err") then some "upload-no-longer-completable"
+  -- (an upload that cannot be completed for a reason of its own — e.g. a gap in its part numbers —
+  -- answers the same error in the prepared state; that is covered by the snapshot comparison)
+  if f.any (fun t => t.startsWith "get=err") then some "completed-upload-unreadable"
   else if f.any (· == "body=READFAIL") then some "completed-upload-unreadable" else none
 
 end C10Drv
@@ -289,7 +291,10 @@ def judgeCase (_k : Nat) (lines : List String) : Verdict := Id.run do
             if sortStrs (predRefs.map partName) != sortStrs ((parseRefs refs).map partName) then
               div := div ++ [s!"{tag}:database:model-committed={cs.committed},impl-refs={refs}"]
             let want := if cs.committed then after else before
-            modelBroken := !(consistentB fsStarted want)
+            -- zero-length parts are never opened by a read (their file may be missing without any
+            -- observable effect), so only non-empty referenced parts decide readability
+            let emptyHash := strBytes "e3b0c44298fc"
+            modelBroken := !(consistentB fsStarted (want.filter fun r => r.2 != emptyHash))
             -- the model's verdict and the observation must agree (tie on the judge's input)
             if modelBroken != unreadable then
               div := div ++ [s!"{tag}:model-says-referenced-part-missing={modelBroken},impl-unreadable={unreadable}"]
